@@ -338,6 +338,8 @@ def run_check(mod, prop, tier, seed, replay_path=None):
         if os.path.exists(DRIVER):
             try:
                 mod.correspond(ctx)
+            except RealTimeout as e:
+                ctx.broken.append(f"real code did not return during the correspondence run: {e}")
             except Exception as e:
                 tb = traceback.format_exc()
                 ctx.broken.append(f"correspondence harness crashed: {type(e).__name__}: {e}")
@@ -350,6 +352,9 @@ def run_check(mod, prop, tier, seed, replay_path=None):
             why = {"broken": ctx.broken, "disagreements": [(k, d) for k, d in ctx.disagreements[:20]]}
             try:
                 findings = list(mod.search(ctx, why) or [])
+            except RealTimeout as e:
+                findings = [Finding("nontermination", f"the real code does not return on an input of the failing-input search: {e}",
+                                    {"timeout": str(e), "last_case": ctx.extra.get("last_case")})]
             except Exception as e:
                 ctx.notes.append("search crashed: " + traceback.format_exc()[-1500:])
                 findings = []
@@ -389,3 +394,22 @@ def run_check(mod, prop, tier, seed, replay_path=None):
     except Exception:
         traceback.print_exc()
         return 2
+
+
+class RealTimeout(BaseException):
+    """The real code did not return within the allotted time (treated as non-termination of the call)."""
+
+
+def with_timeout(seconds, fn, *a, **kw):
+    """Run fn under SIGALRM; raises RealTimeout.  Main thread only."""
+    import signal
+
+    def handler(signum, frame):
+        raise RealTimeout(f"no result after {seconds}s")
+    old = signal.signal(signal.SIGALRM, handler)
+    signal.setitimer(signal.ITIMER_REAL, seconds)
+    try:
+        return fn(*a, **kw)
+    finally:
+        signal.setitimer(signal.ITIMER_REAL, 0)
+        signal.signal(signal.SIGALRM, old)
